@@ -178,8 +178,8 @@ Definition eval_keys (t : ty) (msx : sexp) (real : sexp) : verdict :=
                   | Some koutv =>
                       let spec := (Nat.eqb (List.length koutv) (List.length kinv)
                                    && forallb (fun k => Nat.eqb (List.length (filter (go_eqeq k) koutv)) 1) kinv)%bool in
-                      let mok := (multiset_eq sexp_eqb kin kout
-                                  && match spare with [] => true | _ => false end && same)%bool in
+                      (* the capacity of the result is not compared: it is no part of the property *)
+                      let mok := (multiset_eq sexp_eqb kin kout && same)%bool in
                       let inorder := all2b sexp_eqb kin kout in
                       {| v_known := typed; v_model_ok := mok; v_spec_ok := spec; v_guard := typed;
                          v_model := vres_sexp mres;
